@@ -171,14 +171,15 @@ def minimise(interface, prefix, block, problems):
     return prefix, block, problems
 
 
-def sig_of(prefix, block, problems):
+def sig_of(prefix, block, problems, interface="glpk"):
     from ..benchsearch import variant
 
     s = "".join("E" if o == E else "X" if o in (X, XE) else "o" for o in block)
     inner = [o for o in block if o not in (E, X, XE)]
     return {"shape": s, "ops": "; ".join("%s[%s]" % (o[0], variant(o)) if o[0] != "helper" else "helper[%s]" % o[1]
                                          for o in inner),
-            "prefix": "; ".join(o[0] for o in prefix), "problem": problems[0][0]}
+            "prefix": "; ".join(o[0] for o in prefix), "problem": problems[0][0],
+            **({"interface": interface} if interface != "glpk" else {})}
 
 
 def run_task(payload):
@@ -195,7 +196,7 @@ def run_task(payload):
         if problems:
             p2, b2, pr2 = minimise(interface, prefix, block, problems)
             case = {"interface": interface, "prefix": _l(p2), "block": _l(b2)}
-            violations.append((sig_of(p2, b2, pr2), case,
+            violations.append((sig_of(p2, b2, pr2, interface), case,
                                "prefix=%s\nblock=%s\n%s\n%s" % (p2, b2, pr2[0][0], pr2[0][1])))
     return {"violations": violations, "stats": stats}
 
@@ -205,7 +206,7 @@ def replay(case):
     if not problems:
         return []
     prefix, block = _t(case["prefix"]), _t(case["block"])
-    return [{"sig": sig_of(prefix, block, [p]), "detail": p[0] + "\n" + p[1]} for p in problems[:1]]
+    return [{"sig": sig_of(prefix, block, [p], case["interface"]), "detail": p[0] + "\n" + p[1]} for p in problems[:1]]
 
 
 def enumerate_blocks(tier):
